@@ -170,8 +170,7 @@ mod e2e {
 					Event::PaymentPathSuccessful { payment_id, path, .. } => {
 						if let Some(p) = self.pays.iter().position(|x| x.id == *payment_id) { let mid = self.pays[p].mid; texts.push((mid, format!("pathok:{}:{}", mid, self.part_of(p, path.hops[0].short_channel_id)))); }
 					},
-					Event::PaymentPathFailed { payment_id, path, payment_failed_permanently, short_channel_id, failure, .. } => {
-						if std::env::var("C03_DEBUG").is_ok() { eprintln!("PPF {:?}", failure); }
+					Event::PaymentPathFailed { payment_id, path, payment_failed_permanently, short_channel_id, .. } => {
 						if let Some(p) = self.pays.iter().position(|x| Some(x.id) == *payment_id) {
 							let mid = self.pays[p].mid; let part = self.part_of(p, path.hops[0].short_channel_id);
 							perm.insert(part, *payment_failed_permanently);
@@ -554,7 +553,6 @@ ans.push_str(&self.tried); self.tried.clear();
 		fn run_to_final_raa(&mut self, p: usize) -> bool {
 			for _ in 0..400 {
 				let only_raa = self.net.q.iter().all(|(k, q)| if *k == (1, 0) { q.len() == 1 && matches!(q.front(), Some(Wire::Raa(_))) } else { q.is_empty() });
-				if std::env::var("C03_DEBUG").is_ok() { eprintln!("HC q={:?} decided={} np={}", self.net.q.iter().map(|(k, q)| (*k, q.iter().map(|w| w.kind()).collect::<Vec<_>>())).collect::<Vec<_>>(), self.pays[p].decided, self.net.nodes[1].node.needs_pending_htlc_processing()); }
 				if only_raa && self.pays[p].decided && !self.net.nodes[1].node.needs_pending_htlc_processing() { return true; }
 				if let Some((i, j)) = self.net.any_queued() { self.deliver(i, j); }
 				for i in 1..3 { if self.net.nodes[i].node.needs_pending_htlc_processing() { self.net.forward(i); } self.others_events(i); }
@@ -605,11 +603,17 @@ ans.push_str(&self.tried); self.tried.clear();
 				match r { Some(pb) => ps.push(pb), None => { self.drain_and_judge(&ps, bal0, None, ":hc-setup-missed"); set_fee(self, 253); return; } }
 			}
 			let amt1 = 1_300_000 + self.rng.below(900) * 1000;
-			let p1 = match self.send(next_mid, 1, vec![(vec![0, 1], vec![0], amt1)]) { Some(p) => p, None => { self.paused.push(0); self.drain_and_judge(&ps, bal0, None, ":hc-send-refused"); set_fee(self, 253); return; } };
+			// sometimes a 2-part MPP: the second part goes out over the other 0-1 channel at once and waits at the recipient
+			let mpp = self.rng.chance(1, 3);
+			let mut routes1 = vec![(vec![0, 1], vec![0], amt1)];
+			if mpp { routes1.push((vec![0, 1], vec![1], 50_000 + self.rng.below(100) * 1000)); }
+			let p1 = match self.send(next_mid, 1, routes1) { Some(p) => p, None => { self.paused.push(0); self.drain_and_judge(&ps, bal0, None, ":hc-send-refused"); set_fee(self, 253); return; } };
 			ps.push(p1);
 			let part1 = self.pays[p1].parts[0].0;
 			let hash1 = self.pays[p1].hash;
-			let queued = self.live_of(p1).0 == 1 && !self.sender_htlcs().values().any(|h| *h == hash1);
+			let cid0 = self.net.chans[0].2;
+			let in_c0 = |ctx: &Self, with_id: Option<bool>| -> usize { ctx.net.nodes[0].node.list_channels().iter().filter(|ch| ch.channel_id == cid0).map(|ch| ch.pending_outbound_htlcs.iter().filter(|h| h.payment_hash == hash1 && with_id.map(|w| h.htlc_id.is_some() == w).unwrap_or(true)).count()).sum() };
+			let queued = in_c0(self, Some(false)) == 1 && in_c0(self, Some(true)) == 0;
 			self.log.push(format!("payment {} of {} msat sent over c0: {}", next_mid, amt1, if queued { "in the holding cell" } else { "NOT in the holding cell" }));
 			if self.rng.chance(1, 2) { self.dup_send(p1); }
 			if refuse { set_fee(self, 253); self.log.push("sender's fee estimate falls 506 -> 253 sat/kW".into()); }
@@ -634,7 +638,7 @@ ans.push_str(&self.tried); self.tried.clear();
 			set_fee(self, 506);
 			self.observe();
 			// what became of the queued HTLC, read from the channel alone
-			let gone = self.live_of(p1).0 == 0 && !self.htlcs.values().any(|v| v.0 == p1);
+			let gone = in_c0(self, None) == 0 && !self.htlcs.values().any(|v| v.0 == p1 && v.1 == part1);
 			if queued && gone {
 				self.log.push(format!("the queued HTLC of payment {} was refused at release and dropped from the channel", next_mid));
 				self.pays[p1].failed_htlcs.insert(part1);
@@ -642,10 +646,11 @@ ans.push_str(&self.tried); self.tried.clear();
 				self.flush(None);
 				// truthful terminal outcome, at once: no HTLC of the payment is pending anywhere
 				let pay = &self.pays[p1];
-				if pay.failed_ev != 1 || pay.sent_ev != 0 { let tr = self.log.join(" | "); self.rec.oracle_fail(format!("payment {}: its only HTLC was refused when the holding cell was released (never sent, dropped from the channel) but the sender reported {} PaymentFailed / {} PaymentSent and lists the payment as {} :: {}", pay.mid, pay.failed_ev, pay.sent_ev, self.listed(p1), tr)); }
-				self.dup_free(p1);
+				if !mpp && (pay.failed_ev != 1 || pay.sent_ev != 0) { let tr = self.log.join(" | "); self.rec.oracle_fail(format!("payment {}: its only HTLC was refused when the holding cell was released (never sent, dropped from the channel) but the sender reported {} PaymentFailed / {} PaymentSent and lists the payment as {} :: {}", pay.mid, pay.failed_ev, pay.sent_ev, self.listed(p1), tr)); }
+				if mpp && !self.pays[p1].path_failed.contains(&part1) { let tr = self.log.join(" | "); self.rec.oracle_fail(format!("payment {}: the HTLC of part {} was refused when the holding cell was released (never sent, dropped from the channel) but no PaymentPathFailed names it :: {}", self.pays[p1].mid, part1, tr)); }
+				if !mpp { self.dup_free(p1); }
 			}
-			let class = format!("hc:{}:{}:{}", ["monitor", "reestablish", "raa"][how as usize], if refuse { "feedrop" } else { "steady" }, if !queued { "notqueued" } else if gone { "refused" } else { "released" });
+			let class = format!("hc:{}:{}:{}{}", ["monitor", "reestablish", "raa"][how as usize], if refuse { "feedrop" } else { "steady" }, if !queued { "notqueued" } else if gone { "refused" } else { "released" }, if mpp { ":mpp" } else { "" });
 			*self.rec.classes.entry(class).or_insert(0) += 1;
 			self.drain_and_judge(&ps, bal0, disconnected, &format!(":hc{}", how));
 			set_fee(self, 253);
@@ -800,7 +805,6 @@ ans.push_str(&self.tried); self.tried.clear();
 			net.open(1, 2, 2_000_000, 500_000_000);
 			net.open(0, 2, 2_000_000, 500_000_000);
 			let mut ctx = Ctx { net, rec: &mut rec, rng: &mut rng, buf: vec![], group: 0, htlcs: BTreeMap::new(), live: BTreeSet::new(), ev_seen: vec![0; 3], pays: vec![], next_part: 1, log: vec![], sender_balance: 0, tried: String::new(), paused: vec![], to_reconnect: vec![], broken: false, probe_buf: vec![] };
-			if std::env::var("C03_DEBUG").is_ok() { for f in [253u32, 400, 506, 800] { *ctx.net.nodes[0].fee_estimator.sat_per_kw.lock().unwrap() = f; eprintln!("DUMP fee={} {:?}", f, ctx.net.channel_dump(0)); } *ctx.net.nodes[0].fee_estimator.sat_per_kw.lock().unwrap() = 253; }
 			for k in 0..12u64 {
 				let how = k % 3;
 				let refuse = ctx.rng.chance(3, 4);
@@ -812,7 +816,7 @@ ans.push_str(&self.tried); self.tried.clear();
 			if !ctx.broken { ctx.ticks(10); }
 			std::mem::forget(ctx.net);
 		}
-		rec.notes.insert("rule".into(), "3 real nodes, 4 channels, sequential payments (1-hop, 2-hop, 2- and 3-part MPP over distinct first-hop channels), every peer message delivered singly in PRNG order with recipient claim/reject, sender ticks, abandon, duplicate sends and disconnect/reconnect interleaved; one case per sender event drain (the ops observed since the last drain) and per list_recent_payments dump; distinct = distinct op text with at least one observed op".into());
+		rec.notes.insert("rule".into(), "3 real nodes, 4 channels, sequential payments (1-hop, 2-hop, 2- and 3-part MPP over distinct first-hop channels), every peer message delivered singly in PRNG order with recipient claim/reject, sender ticks, abandon, duplicate sends, disconnect/reconnect, probes (send_probe over 2 hops, last hop cut or not) and sender restarts (manager + monitors written and read back while payments are in flight; a manager written before the last timer ticks) interleaved; holding-cell networks (sender with a tight dust-exposure limit: an HTLC queued behind an in-progress monitor update / an awaited RAA is refused at release after the fee estimate fell; released by monitor completion, channel_reestablish, revoke_and_ack); fee ledger and PaymentSent.fee_paid_msat, retry gate flags checked by the driver; one case per sender event drain (the ops observed since the last drain) and per list_recent_payments dump; distinct = distinct op text with at least one observed op".into());
 		rec.finish();
 	}
 }
